@@ -124,4 +124,49 @@ def run(pid, tier, replay=None):
     judge(chk, traces, recs, cfg, {pid})
     chk.extra["rule"] = ("case = (random chain distributing outputs over 3 wallet keys and a foreign key, sequence of 2-6 spends with amounts below/at/above "
                          "the balance and fees 0-2, chain sometimes extended in between); non-trivial = the sequence has a failed attempt and a successful spend")
+    # ---- a spend is a function of (wallet, ledger, amount, fee) also while the network thread works: the script's thread builds and signs a
+    #      spend and is stopped before every line it executes in the wallet / signing / serialisation modules; at each stop the other thread
+    #      hashes a block header and serialises a message (Interfere.tla; preemption-point exploration on real threads)
+    from checks import interfere
+    rc_ = interfere.design(chk, pid)
+    if rc_:
+        return rc_
+    import skepticoin.wallet as W_
+    import skepticoin.consensus as c_
+    import skepticoin.networking.messages as M_
+    sk.apply_cfg(cfg)
+    w_i = sk.World(cfg, keys, tag=b"wint")
+    rec_i = ledger_drv.Recorder(w_i, 9999, full=False, snapshots=False)
+    rec_i.start(w_i.make_genesis(miner=1))
+    rt_i = RandomTree(w_i, rec_i, rng, nkeys=4, p_mut=0.0)
+    for _ in range(6):
+        rt_i.step()
+    cs_i = rec_i.cs
+    from skepticoin.signing import SECP256k1PublicKey as PK_
+    bal_i = sum(cs_i.at_head.public_key_balances[PK_(keys.pub[k])].value for k in wallet_keys if PK_(keys.pub[k]) in cs_i.at_head.public_key_balances)
+    head_i = cs_i.head()
+
+    def fa():
+        wal = make_wallet(keys, wallet_keys)
+        try:
+            t_ = W_.create_spend_transaction(wal, cs_i, max(1, bal_i - 1), 0, keys.public_key(4), keys.public_key(2))
+        except Exception as e_:
+            return ("no transaction", type(e_).__name__)
+        try:
+            c_.validate_non_coinbase_transaction_by_itself(t_)
+            c_.validate_non_coinbase_transaction_in_coinstate(t_, cs_i.current_chain_hash, cs_i)
+            ok_ = "passes full transaction validation"
+        except Exception as e_:
+            ok_ = "refused: %s" % sk.rule_of_exception(e_)
+        return (ok_, [o.value for o in t_.outputs], len(t_.inputs))
+
+    def fb():
+        return (head_i.header.summary.serialize().hex()[:16], M_.GetBlocksMessage([head_i.hash()], b"\x00" * 32).serialize().hex()[:16], head_i.hash().hex()[:16])
+    if bal_i >= 2:
+        itr = interfere.explore_pair(chk, pid, "spend_built_by_the_wallet", fa, fb, quick, rng,
+                                     files=("skepticoin/wallet.py", "skepticoin/signing.py", "skepticoin/serialization.py", "skepticoin/datatypes.py"),
+                                     max_points=200 if quick else 3000)
+        interfere.judge(chk, itr, pid)
+    else:
+        chk.notes.append("interference stage skipped: the wallet of the generated chain holds less than 2 units")
     return chk.finish()
